@@ -1,21 +1,24 @@
 #!/bin/sh
-# builds _build/driver (model: gen/model.ml) and _build/specdriver (spec: gen/spec.ml).
-# usage: build.sh [model|spec|all]
-set -e
+# One driver binary per extracted area:
+#   gen/model_<area>.ml + domains/<area>/*.ml      -> _build/model_<area>
+#   gen/spec_<area>.ml  + specdomains/<area>/*.ml  -> _build/spec_<area>
+# usage: build.sh [model_<area>|spec_<area> ...]   (default: every gen/*.ml present)
 cd "$(dirname "$0")"
-what="${1:-all}"
 mkdir -p _build
-one() { # $1 = extracted module (model|spec), $2 = driver source, $3 = output
+rc=0
+one() { # $1 = model_<area> | spec_<area>
+  kind=${1%%_*}; area=${1#*_}
+  if [ "$kind" = model ]; then dir="domains/$area"; else dir="specdomains/$area"; fi
   [ -f "gen/$1.ml" ] || { echo "gen/$1.ml missing"; return 1; }
-  if [ -f "_build/$3" ] && [ "_build/$3" -nt "gen/$1.ml" ] && [ "_build/$3" -nt "$2" ] && [ "_build/$3" -nt proto.ml ]; then return 0; fi
+  [ -d "$dir" ] || { echo "$dir missing"; return 1; }
   mod=$(echo "$1" | sed 's/^./\U&/')
+  { echo "open $mod"; cat proto.ml; for f in $(ls "$dir"/*.ml | sort); do echo "# 1 \"$f\""; cat "$f"; done; echo "let () = main ()"; } > "_build/$1_main.ml.new"
+  if [ -f "_build/$1" ] && cmp -s "gen/$1.ml" "_build/$1.ml" && cmp -s "_build/$1_main.ml.new" "_build/$1_main.ml"; then rm "_build/$1_main.ml.new"; return 0; fi
+  mv "_build/$1_main.ml.new" "_build/$1_main.ml"
   cp "gen/$1.ml" "gen/$1.mli" _build/
-  { echo "open $mod"; cat proto.ml "$2"; } > "_build/$3_main.ml"
-  (cd _build && ocamlfind ocamlopt -O3 -unboxed-types -w -a -package str "$1.mli" "$1.ml" "$3_main.ml" -o "$3" 2>/dev/null \
-    || ocamlfind ocamlopt -w -a -package str "$1.mli" "$1.ml" "$3_main.ml" -o "$3")
+  (cd _build && rm -f "$1" && { ocamlfind ocamlopt -O3 -unboxed-types -w -a -package str,unix "$1.mli" "$1.ml" "$1_main.ml" -linkpkg -o "$1" 2>/dev/null \
+    || ocamlfind ocamlopt -w -a -package str,unix "$1.mli" "$1.ml" "$1_main.ml" -linkpkg -o "$1"; })
 }
-case "$what" in
-  model) one model driver.ml driver ;;
-  spec) one spec specdriver.ml specdriver ;;
-  all) one model driver.ml driver; one spec specdriver.ml specdriver ;;
-esac
+if [ $# -eq 0 ]; then set -- $(ls gen/*.ml 2>/dev/null | sed 's|gen/||; s|\.ml$||'); fi
+for t in "$@"; do one "$t" || rc=1; done
+exit $rc
